@@ -68,6 +68,14 @@ func labelIdxStruct(label string, data map[string]interface{}) map[string]interf
 func (ggraph *Graph) AddVertexIndex(label string, field string) error {
 	log.WithFields(log.Fields{"label": label, "field": field}).Info("Adding vertex index")
 	field = normalizePath(field)
+	// the index is registered under the path graph.v.label.field: a label with a '.'
+	// would read as a path of its own, a zero byte ends the key of the field record
+	if label == "" || strings.ContainsAny(label, ".\x00") {
+		return fmt.Errorf("cannot index label '%s': the label is empty or contains '.' or a zero byte", label)
+	}
+	if field == "" || strings.Contains(field, "\x00") {
+		return fmt.Errorf("cannot index field '%s': the field is empty or contains a zero byte", field)
+	}
 	//TODO kick off background process to reindex existing data
 	return ggraph.idx.AddField(fmt.Sprintf("%s.v.%s.%s", ggraph.graphID, label, field))
 }
@@ -87,8 +95,9 @@ func (ggraph *Graph) GetVertexIndexList() <-chan *gripql.IndexID {
 		defer close(out)
 		fields := ggraph.idx.ListFields()
 		for _, f := range fields {
-			t := strings.Split(f, ".")
-			if len(t) > 3 {
+			// graph.v.label.field, where field may be a path itself
+			t := strings.SplitN(f, ".", 4)
+			if len(t) > 3 && t[0] == ggraph.graphID && t[1] == "v" {
 				out <- &gripql.IndexID{Graph: ggraph.graphID, Label: t[2], Field: t[3]}
 			}
 		}
